@@ -136,6 +136,12 @@ func (d *cliDriver) oneCase(seed int64, id int) {
 	}
 	cfg := MCfg{Layout: lay, Method: method, Xff: drvXffs[rnd.Intn(len(drvXffs))]}
 	other := MCfg{Layout: cliLayouts[(rnd.Intn(len(cliLayouts)-1)+1+indexOfLayout(lay))%len(cliLayouts)], Method: "sum", Xff: [2]int64{0, 1}}
+	if rnd.Intn(2) == 0 {
+		// the other layout differs from this one only in the number of points of its last archive
+		ol := append([]MArch{}, lay...)
+		ol[len(ol)-1].N += 1 + int64(rnd.Intn(4))
+		other = MCfg{Layout: ol, Method: method, Xff: cfg.Xff}
+	}
 	k := len(lay)
 	maxRet := lay[k-1].Step * lay[k-1].N
 	mp := Mapping{B: drvBases[rnd.Intn(len(drvBases))], Scale: drvScales[rnd.Intn(len(drvScales))]}
@@ -145,7 +151,7 @@ func (d *cliDriver) oneCase(seed int64, id int) {
 	if omax > maxRet {
 		maxRet = omax
 	}
-	now := maxRet + 1000 + rnd.Int63n(3000)
+	now := maxRet + 2*lay[len(lay)-1].Step + 1000 + rnd.Int63n(3000)
 	root := filepath.Join(d.root, fmt.Sprintf("c%d", id))
 	defer os.RemoveAll(root)
 	e := &cliEnv{root: root, srcBase: filepath.Join(root, "src"), destBase: filepath.Join(root, "dst"), mp: mp, now: now}
@@ -196,12 +202,19 @@ func (d *cliDriver) oneCase(seed int64, id int) {
 		items = append(items, item)
 	}
 	srcCfg := func(p string) MCfg {
-		db, err := wt.Open(p, wt.WithoutFlock())
+		buf, err := ioutil.ReadFile(p)
 		if err != nil {
 			return cfg
 		}
-		defer db.Close()
-		if len(db.ArchiveInfoList()) == len(cfg.Layout) && int64(db.ArchiveInfoList()[0].NumberOfPoints()) == cfg.Layout[0].N && int64(db.ArchiveInfoList()[0].SecondsPerPoint()) == cfg.Layout[0].Step {
+		h, _, err := decodeFile(buf)
+		if err != nil {
+			return cfg
+		}
+		same := len(h.Archs) == len(cfg.Layout)
+		for i := 0; same && i < len(h.Archs); i++ {
+			same = int64(h.Archs[i].Step) == cfg.Layout[i].Step && int64(h.Archs[i].N) == cfg.Layout[i].N
+		}
+		if same {
 			return cfg
 		}
 		return other
@@ -302,6 +315,26 @@ func (d *cliDriver) oneCase(seed int64, id int) {
 			line("copy", map[string]interface{}{"ccfg": cfg, "src": pres[i].src, "dst": pres[i].dst, "cn": cn, "k": kclass, "msg": res.Msg, "post": postOf(dp), "glob": glob})
 		}
 	case "C09":
+		if glob {
+			// glob mode: every matched file is compared with the same relative path under the destination base
+			var pairs []map[string]interface{}
+			for _, it := range items {
+				os.MkdirAll(filepath.Dir(it.dst), 0755)
+				tgt := filepath.Join(filepath.Dir(it.dst), "s1.wsp")
+				if _, err := os.Stat(it.dst); err == nil {
+					os.Rename(it.dst, tgt)
+				}
+				pairs = append(pairs, map[string]interface{}{"src": snapshot(it.srcs[0], srcCfg(it.srcs[0]), mp), "dst": snapshot(tgt, it.dcfg, mp)})
+			}
+			c := &cmd.DiffCommand{SrcBase: e.srcBase, SrcRelPath: "item*/s1.wsp", DestBase: e.destBase, From: from, Until: until, ArchiveID: arch}
+			res := e.runCmd(c, &c.TextOut)
+			got, _, err := parsePointLines(res.Text, mp)
+			if err != nil {
+				panic(err)
+			}
+			line("diffglob", map[string]interface{}{"pairs": pairs, "k": res.Class, "msg": res.Msg, "recs": recsJSON(got, mp)})
+			break
+		}
 		it := items[0]
 		c := &cmd.DiffCommand{SrcBase: e.srcBase, SrcRelPath: "item1/s1.wsp", DestBase: e.destBase, DestRelPath: "item1/d.wsp", From: from, Until: until, ArchiveID: arch}
 		res := e.runCmd(c, &c.TextOut)
@@ -320,6 +353,34 @@ func (d *cliDriver) oneCase(seed int64, id int) {
 		}
 		line("sum", map[string]interface{}{"files": filesOf(it), "k": res.Class, "msg": res.Msg, "recs": recsJSON(got, mp)})
 	case "C11":
+		if glob {
+			// several items: every item is compared; one deviating item makes the run report a difference
+			var its []map[string]interface{}
+			for _, it := range items {
+				its = append(its, map[string]interface{}{"files": filesOf(it), "dst": snapshot(it.dst, it.dcfg, mp)})
+			}
+			sd := &cmd.SumDiffCommand{SrcBase: e.srcBase, ItemPattern: "item*", SrcPattern: "s*.wsp", DestBase: e.destBase, DestRelPath: "d.wsp", From: from, Until: until, ArchiveID: arch}
+			res := e.runCmd(sd, &sd.TextOut)
+			got, _, err := parsePointLines(res.Text, mp)
+			if err != nil {
+				panic(err)
+			}
+			line("sumdiffglob", map[string]interface{}{"items": its, "k": res.Class, "msg": res.Msg, "recs": recsJSON(got, mp)})
+			// sum-copy over all items, then every destination holds its item's sum
+			pres := make([]sfile, len(items))
+			for i, it := range items {
+				pres[i] = snapshot(it.dst, it.dcfg, mp)
+			}
+			c := &cmd.SumCopyCommand{SrcBase: e.srcBase, DestBase: e.destBase, ItemPattern: "item*", SrcPattern: "s*.wsp", DestRelPath: "d.wsp",
+				AggregationMethod: methodOf(cfg.Method), XFilesFactor: xffFloat(cfg.Xff), ArchiveInfoList: archiveInfoList(cfg), From: from, Until: until, ArchiveID: arch}
+			res = e.runCmd(c, &c.TextOut)
+			if res.Class == "ok" {
+				for i, it := range items {
+					line("sumcopy", map[string]interface{}{"ccfg": cfg, "files": its[i]["files"], "dst": pres[i], "k": res.Class, "msg": res.Msg, "post": postOf(it.dst), "glob": true})
+				}
+			}
+			break
+		}
 		it := items[0]
 		pre := snapshot(it.dst, it.dcfg, mp)
 		files := filesOf(it)
